@@ -32,12 +32,18 @@ type outcome struct {
 
 // rigs[0] serves with martian's own connection loop (production), rigs[1] with
 // martian's http.Handler on net/http's server (config TestingHTTPHandler).
-type rigSet [2]*proxyRig
+// rigs[2] is like rigs[0] but configured with a request ReadTimeout (readTimeoutMs).
+type rigSet [3]*proxyRig
+
+const readTimeoutMs = 600
 
 func runScenario(rigs rigSet, p Params) outcome {
 	rig := rigs[0]
 	if p.Handler {
 		rig = rigs[1]
+	}
+	if p.ReadTimeoutMs > 0 {
+		rig = rigs[2]
 	}
 	t0 := time.Now()
 	sc := newScenario(p)
@@ -244,6 +250,33 @@ func genParams(tier string, seed uint64) []Params {
 	for i := 0; i < nN; i++ {
 		out = append(out, genOne(r, len(out), seed, nativeModes[i%len(nativeModes)], false, i%3 == 0, tier))
 	}
+	// tunnels that outlive the configured request ReadTimeout: the client is the second closer and sends
+	// its remaining bytes when the tunnel is older than the timeout
+	nR := 12
+	if tier == "thorough" {
+		nR = 60
+	}
+	for i := 0; i < nR; i++ {
+		p := genOne(r, len(out), seed, gatedModes[i%len(gatedModes)], true, i%3 != 0, tier)
+		p.Handler = false
+		if !p.Concrete {
+			p.Len = [2]int{5000 + r.Intn(60000), 5000 + r.Intn(60000)}
+			p.Early, p.Banner, p.HeadPad = 0, 0, 0
+			p.SlowReader = [2]bool{}
+		}
+		p.ReadTimeoutMs = readTimeoutMs
+		p.Order = "target_first"
+		p.Post = [2]int{}
+		if rest := p.Len[CT] - p.Early; rest > 0 {
+			p.Post[CT] = 1 + r.Intn(rest)
+		} else {
+			p.Len[CT] += 7
+			p.Post[CT] = 7
+		}
+		p.HoldMs = readTimeoutMs + 300 + r.Intn(500)
+		p.TimeoutMs = 8000
+		out = append(out, p)
+	}
 	if tier == "thorough" {
 		// a complete grid over the discrete choices, with tiny payloads: mode x close order x early x banner x
 		// read schedule on the listener side x handler
@@ -390,8 +423,12 @@ func main() {
 	flag.Parse()
 
 	var rig rigSet
-	for i, h := range []bool{false, true} {
-		r, err := startProxy(h)
+	for i, h := range []bool{false, true, false} {
+		var rt time.Duration
+		if i == 2 {
+			rt = readTimeoutMs * time.Millisecond
+		}
+		r, err := startProxy(h, rt)
 		if err != nil {
 			fmt.Fprintln(os.Stderr, "starting proxy:", err)
 			os.Exit(2)
@@ -570,6 +607,9 @@ func main() {
 		dist["order:"+p.Order]++
 		if p.Handler {
 			dist["via_http_handler"]++
+		}
+		if p.ReadTimeoutMs > 0 {
+			dist["tunnel_older_than_read_timeout"]++
 		}
 		if p.Gated {
 			dist["gated"]++
